@@ -146,7 +146,7 @@ theorem recvTx_mined (c : Ctx) (s : Store) (v : Vol) (t : Tx) : minedOf (recvTx 
       · rfl
       · rename_i s' h; exact addRelevantUnmined_mined _ _ _ h
 
-theorem onRecv_cases (e : Env) (node c : List Block) (P : List Tx) (t : Tx) :
+theorem onRecv_cases (e : Spec.Pending.Env) (node c : List Block) (P : List Tx) (t : Tx) :
     onRecv e node c P t = P ∨
     (onRecv e node c P t = P ++ [t] ∧ t.cb = false ∧ hasId P t.id = false ∧ onChain c t.id = false ∧
       relevant e t = true) := by
@@ -212,6 +212,15 @@ theorem hinv_recv {rank : TxId → Nat} {E : HEnv} {w : HW} (H : HInv rank E w) 
     · exact H.srcP x hx
     · rw [List.mem_singleton.1 hx]; exact D.known
 
+theorem split_last {α : Type} : ∀ (l : List α) (b : α), l.getLast? = some b → l = l.dropLast ++ [b]
+  | [], _, h => by cases h
+  | [a], b, h => by simp at h; simp [h]
+  | a :: a' :: l, b, h => by
+    have : (a' :: l).getLast? = some b := by simpa [List.getLast?_cons_cons] using h
+    have ih := split_last (a' :: l) b this
+    simp only [List.dropLast_cons_cons, List.cons_append]
+    rw [← ih]
+
 theorem SrcIdx.sublist {E : HEnv} {l l' : List Tx} (h : SrcIdx E l) (hs : ∀ t ∈ l', t ∈ l) : SrcIdx E l' :=
   fun t ht => h t (hs t ht)
 
@@ -243,11 +252,7 @@ theorem hinv_disconnect {rank : TxId → Nat} {E : HEnv} {w : HW} (H : HInv rank
     rw [this]; exact H
   | some b =>
     have hsplit : w.sp.chain = w.sp.chain.dropLast ++ [b] := by
-      have hne : w.sp.chain ≠ [] := by intro h; rw [h] at hl; cases hl
-      rw [List.getLast?_eq_some_getLast hne] at hl
-      have := List.dropLast_append_getLast hne
-      rw [Option.some.inj hl] at this
-      exact this.symm
+      exact split_last _ b hl
     obtain ⟨hc0, hV, hHt, hk, dom⟩ := D _ b hsplit
     cases hd : disconnectBlock (E.ctx w.node) w.s b.height with
     | error e =>
@@ -292,7 +297,10 @@ theorem hinv_disconnect {rank : TxId → Nat} {E : HEnv} {w : HW} (H : HInv rank
 theorem hinv_step {rank : TxId → Nat} {E : HEnv} {w : HW} (H : HInv rank E w) (ev : HEv) (D : HOK rank E w ev) :
     HInv rank E (stepH E w ev) := by
   cases ev with
-  | node n => exact ⟨(inv_ctx_irrel rfl rfl rfl).1 H.inv, H.ar, H.ne, H.rel, H.cons, H.sidx, H.nocb, H.relv, H.srcP⟩
+  | node n =>
+    have hi : Inv (E.ctx n) w.s w.sp.chain :=
+      (inv_ctx_irrel (c := E.ctx w.node) (c' := E.ctx n) rfl rfl rfl).1 H.inv
+    exact ⟨hi, H.ar, H.ne, H.rel, H.cons, H.sidx, H.nocb, H.relv, H.srcP⟩
   | vol v => exact ⟨H.inv, H.ar, H.ne, H.rel, H.cons, H.sidx, H.nocb, H.relv, H.srcP⟩
   | recv t => exact hinv_recv H t D
   | connect b => exact hinv_connect H b D
@@ -334,12 +342,11 @@ theorem stepH_spec (E : HEnv) (w : HW) (ev : HEv) :
   | vol v => rfl
   | recv t => rfl
   | connect b =>
-    simp only [stepH, specEvent]
-    cases filterBlock (E.ctx w.node) w.s (readyWallets w.s E.wallets) b <;> rfl
+    cases h1 : filterBlock (E.ctx w.node) w.s (readyWallets w.s E.wallets) b <;> simp only [stepH, specEvent, h1]
   | disconnect =>
-    simp only [stepH, specEvent]
-    cases w.sp.chain.getLast? with
-    | none => rfl
-    | some b => cases disconnectBlock (E.ctx w.node) w.s b.height <;> rfl
+    cases h1 : w.sp.chain.getLast? with
+    | none => simp only [stepH, specEvent, h1]
+    | some b =>
+      cases h2 : disconnectBlock (E.ctx w.node) w.s b.height <;> simp only [stepH, specEvent, h1, h2]
 
 end MW.Lemmas.PendHist
